@@ -16,6 +16,8 @@ demo=$(ls "$dst"/demo_*_test.go | head -1)
 pkgdir=$(grep -m1 -o 'persist/[a-z0-9]*' "$demo" | head -1)
 [ -z "$pkgdir" ] && pkgdir="."
 grep -q '^package mast' "$demo" && pkgdir="."
+grep -q '^package file' "$demo" && pkgdir="persist/file"
+grep -q '^package s3' "$demo" && pkgdir="persist/s3"
 wt="/tmp/sv-$name"
 git -C /repo worktree remove --force "$wt" 2>/dev/null
 git -C /repo worktree add -q --detach "$wt" HEAD || exit 2
